@@ -7,6 +7,7 @@ from typing import Dict, List, Optional, Set, Tuple
 
 from ..core import AnalysisError, RuleSpec
 from ..pymodel import call_name
+from .. import astq
 
 EXPLANATION = (
     "Necessary conditions only (the mirroring of a run-time directory tree is not decided). R1: a page "
@@ -23,133 +24,343 @@ EXPLANATION = (
 ASSUMPTIONS = []
 
 
+def _ctor_calls(root: ast.AST) -> List[ast.Call]:
+    return [c for c in ast.walk(root) if isinstance(c, ast.Call) and call_name(c) == "PageNode"]
+
+
+def _page_loop(py, fn) -> Tuple[ast.For, str]:
+    """the loop of get_page_tree that joins `topdir / <name>`; returns (loop, name variable)"""
+    for n in ast.walk(fn):
+        if isinstance(n, ast.For) and isinstance(n.target, ast.Name):
+            v = n.target.id
+            for st in n.body:
+                for b in ast.walk(st):
+                    if isinstance(b, ast.BinOp) and isinstance(b.op, ast.Div) and isinstance(b.right, ast.Name) \
+                            and b.right.id == v:
+                        return n, v
+    raise AnalysisError("get_page_tree: the loop that joins `<dir> / <name>` was not found")
+
+
 def r1_containment(ctx, rep):
     py = ctx.py
     fn = py.func("pagetree.get_page_tree")
-    raised = [ast.unparse(r.exc.func) for r in ast.walk(py.func("PageNode.__init__"))
-              if isinstance(r, ast.Raise) and isinstance(r.exc, ast.Call)]
+    init = py.func("PageNode.__init__")
+    par = astq.parents_of(fn)
+    # what PageNode raises for a missing title: the raise guarded by a test on `.title`
+    raised = []
+    ipar = astq.parents_of(init)
+    for r in ast.walk(init):
+        if isinstance(r, ast.Raise) and r.exc is not None:
+            conds = astq.conditions_of(r, ipar)
+            if any("title" in ast.unparse(t) for t, _ in conds):
+                raised.append(ast.unparse(r.exc.func if isinstance(r.exc, ast.Call) else r.exc).split(".")[-1])
     if not raised:
-        raise AnalysisError("PageNode.__init__: no raise for a missing title")
-    tries = [t for t in ast.walk(fn) if isinstance(t, ast.Try)]
-    sub = [t for t in tries if "node.subpages.append" in ast.unparse(t)]
-    if not sub:
-        raise AnalysisError("get_page_tree: try around the sub-page constructor not found")
-    h = sub[0].handlers[0]
-    ht = ast.unparse(h.type) if h.type is not None else "BaseException"
-    ok = ht in raised or ht in ("Exception", "BaseException")
-    rep.ob("sub-page failure is caught", ok, f"PageNode raises {raised}; handler catches {ht}" if ok else
-           f"PageNode raises {raised} for a page without title but the handler catches {ht}", py.nloc(h))
-    ok = isinstance(h.body[-1], ast.Continue) and "warn(" in ast.unparse(h)
-    rep.ob("a bad page is reported and its siblings are kept", ok, "handler warns and continues the loop" if ok else
-           "handler does not continue with the next file", py.nloc(h))
-    idx = [t for t in tries if "PageNode(md, index_file" in ast.unparse(t)]
-    ok = bool(idx) and "return None" in ast.unparse(idx[0].handlers[0]) and "warn(" in ast.unparse(idx[0].handlers[0])
-    rep.ob("a bad index page drops only that sub-tree", ok, "", py.nloc(idx[0]) if idx else py.nloc(fn))
-    ok = "if not index_file.exists()" in ast.unparse(fn)
-    rep.ob("a directory without index.md is reported, not fatal", ok, "", py.nloc(fn))
-    t = ast.unparse(py.func("PageNode.__init__"))
-    ok = "if self.meta.title is None" in t
-    rep.ob("title is mandatory", ok, "", py.nloc(py.func("PageNode.__init__")))
+        raise AnalysisError("PageNode.__init__: no raise guarded by a test on the title")
+    rep.ob("title is mandatory", True, f"PageNode.__init__ raises {raised} when the title is missing", py.nloc(init),
+           nontrivial=False)
+    loop, name = _page_loop(py, fn)
+    in_loop = [c for c in _ctor_calls(loop)]
+    outside = [c for c in _ctor_calls(fn) if not any(c is x for x in ast.walk(loop))]
+    if not in_loop or not outside:
+        raise AnalysisError("get_page_tree: PageNode(...) for the index page / for sub-pages not found")
+    HIER = {"ValueError": "Exception", "Exception": "BaseException"}
+
+    def covers(types: List[str], exc: str) -> bool:
+        e = exc
+        while e:
+            if e in types:
+                return True
+            e = HIER.get(e)
+        return False
+
+    for c in in_loop:
+        t = astq.enclosing(c, par, ast.Try)
+        if t is None or not any(c is x for st in t.body for x in ast.walk(st)):
+            rep.ob("sub-page failure is caught", False, "the sub-page constructor is not inside a try: a page without title "
+                   "aborts the walk and its siblings are lost", py.nloc(c))
+            continue
+        hs = [h for h in t.handlers if all(covers(astq.handler_types(h), e) for e in raised)]
+        ok = bool(hs)
+        rep.ob("sub-page failure is caught", ok,
+               f"PageNode raises {raised}; handler catches {astq.handler_types(hs[0])}" if ok else
+               f"PageNode raises {raised} for a page without title but the handlers catch "
+               f"{[astq.handler_types(h) for h in t.handlers]}", py.nloc(t))
+        if hs:
+            h = hs[0]
+            leaves = [x for x in ast.walk(h) if isinstance(x, (ast.Return, ast.Raise, ast.Break))]
+            warns = astq.calls(h, "warn", "print", "warning")
+            ok = not leaves and bool(warns)
+            rep.ob("a bad page is reported and its siblings are kept", ok,
+                   "handler reports and goes on with the next file" if ok else
+                   ("handler leaves the loop (return/raise/break): the remaining siblings are lost" if leaves else
+                    "handler does not report the page"), py.nloc(h))
+    for c in outside:
+        t = astq.enclosing(c, par, ast.Try)
+        ok = t is not None and any(
+            all(covers(astq.handler_types(h), e) for e in raised) and astq.calls(h, "warn", "print", "warning")
+            and any(isinstance(x, ast.Return) for x in ast.walk(h)) for h in t.handlers)
+        rep.ob("a bad index page drops only that sub-tree", ok,
+               "the index constructor is guarded; the handler reports and returns" if ok else
+               "a directory whose index.md has no title is not contained (no guarded constructor that reports and returns)",
+               py.nloc(c))
+    # a directory without index.md is reported, not fatal: an `exists()` test on the index file with an early return
+    ex = [n for n in ast.walk(fn) if isinstance(n, ast.If) and "exists()" in ast.unparse(n.test)
+          and any(isinstance(x, ast.Return) for x in ast.walk(n))]
+    rep.ob("a directory without index.md is reported, not fatal", bool(ex), "", py.nloc(ex[0]) if ex else py.nloc(fn))
 
 
 def r2_order(ctx, rep):
     py = ctx.py
     fn = py.func("pagetree.get_page_tree")
-    t = ast.unparse(fn)
-    ok = "filelist = sorted(os.listdir(topdir))" in t
-    rep.ob("directory listing is sorted", ok, "alphabetical base order independent of the file system" if ok else
-           "os.listdir result is used unsorted", py.nloc(fn))
-    ok = "filelist.remove('index.md')" in t
-    rep.ob("index.md removed from the listing", ok, "", py.nloc(fn))
+    loop, name = _page_loop(py, fn)
+    # the directory listing
+    listdirs = [c for c in ast.walk(fn) if isinstance(c, ast.Call) and call_name(c) in ("os.listdir", "listdir", "os.scandir")]
+    iterdirs = [c for c in ast.walk(fn) if isinstance(c, ast.Call) and call_name(c).endswith(".iterdir")]
+    if not listdirs and not iterdirs:
+        raise AnalysisError("get_page_tree: directory listing call not found")
+    par = astq.parents_of(fn)
+    listing_vars: Set[str] = set()
+    for c in listdirs + iterdirs:
+        st = astq.enclosing(c, par, (ast.Assign, ast.AnnAssign))
+        sorted_here = any(isinstance(x, ast.Call) and call_name(x) == "sorted" and any(c is y for y in ast.walk(x))
+                          for x in ast.walk(st if st is not None else fn))
+        vars_ = [t for t in (astq.target_names(st.targets[0]) if isinstance(st, ast.Assign) else
+                             astq.target_names(st.target) if st is not None else [])]
+        sorted_later = any(isinstance(x, ast.Call) and call_name(x) in [f"{v}.sort" for v in vars_] for x in ast.walk(fn))
+        ok = sorted_here or sorted_later
+        listing_vars |= set(vars_)
+        rep.ob("directory listing is sorted", ok, "alphabetical base order independent of the file system" if ok else
+               "the directory listing is used in file-system order", py.nloc(c))
+    # index.md taken out of the listing
+    removed = [c for c in ast.walk(fn) if isinstance(c, ast.Call) and isinstance(c.func, ast.Attribute)
+               and c.func.attr in ("remove", "discard") and ast.unparse(c.func.value) in listing_vars and c.args
+               and isinstance(c.args[0], ast.Constant) and c.args[0].value == "index.md"]
+    filtered = [n for v in listing_vars for _, val in astq.assignments(fn, v) if val is not None
+                for n in ast.walk(val) if isinstance(n, ast.comprehension) and any(astq.compares_to_const(i, "index.md", (ast.NotEq,)) for i in n.ifs)]
+    skipped = [g for g in astq.preceding_guards(loop.body, loop.body[-1]) if astq.compares_to_const(g.test, "index.md", (ast.Eq,))]
+    ok = bool(removed or filtered or skipped)
+    rep.ob("index.md removed from the listing", ok, "" if ok else
+           "index.md stays in the directory listing: the index page is also created as a sub-page of itself", py.nloc(fn))
+    # index.md taken out of the user's list
     pn = py.func("PageNode.__init__")
-    asg = [n for n in ast.walk(pn) if isinstance(n, ast.Assign) and ast.unparse(n.targets[0]) == "self.ordered_subpages"]
-    ok = bool(asg) and re.search(r"if x != 'index\.md'", ast.unparse(asg[0].value)) is not None
+    asg = astq.assignments(pn, "self.ordered_subpages")
+    if not asg:
+        raise AnalysisError("PageNode.__init__: self.ordered_subpages is not assigned")
+    ok = any(isinstance(n, ast.comprehension) and any(astq.compares_to_const(i, "index.md", (ast.NotEq,)) for i in n.ifs)
+             for _, v in asg for n in ast.walk(v)) or bool(skipped)
+    # a later filter by membership in the (index-free) listing is just as good
+    by_listing = any(isinstance(n, ast.comprehension) and any(
+        isinstance(i, ast.Compare) and isinstance(i.ops[0], ast.In) and ast.unparse(i.comparators[0]) in listing_vars for i in n.ifs)
+        for n in ast.walk(fn)) and bool(removed or filtered) and not any(
+            ast.unparse(b) == "node.ordered_subpages" for b in ast.walk(fn) if isinstance(b, ast.Attribute)
+            and isinstance(par.get(b), ast.BinOp))
+    ok = ok or by_listing
     rep.ob("index.md removed from ordered_subpage", ok,
            "the user list cannot re-introduce the index page" if ok else
-           f"`self.ordered_subpages = {ast.unparse(asg[0].value) if asg else '?'}` keeps an `index.md` entry: it is merged "
+           f"`self.ordered_subpages = {ast.unparse(asg[0][1])}` keeps an `index.md` entry: it is merged "
            f"back in front of the listing, so the index page becomes a sub-page of itself (rendered and listed twice)",
-           py.nloc(asg[0]) if asg else py.nloc(pn))
-    ok = "mergedfilelist = list(OrderedDict.fromkeys(node.ordered_subpages + filelist))" in t
-    rep.ob("ordered pages first, rest alphabetical, duplicates removed", ok, "", py.nloc(fn))
-    loop = [n for n in ast.walk(fn) if isinstance(n, ast.For) and ast.unparse(n.iter) == "mergedfilelist"]
-    if not loop:
-        raise AnalysisError("get_page_tree: loop over mergedfilelist not found")
-    first = loop[0].body[:2]
-    ok = len(first) == 2 and all(isinstance(s, ast.If) and isinstance(s.body[0], ast.Continue) for s in first) and \
-        "name[0] == '.'" in ast.unparse(first[0].test) and "name[-1] == '~'" in ast.unparse(first[1].test)
-    rep.ob("hidden and backup files are skipped before any use of the name", ok, "", py.nloc(loop[0]))
-    body = ast.unparse(loop[0])
-    ok = "filename.suffix == '.md'" in body and "node.files.append(name)" in body and "filename.is_dir()" in body
-    rep.ob("markdown -> page, directory -> sub-tree, other -> copied file", ok, "", py.nloc(loop[0]))
-    ok = "if parent and name in parent.copy_subdir" in body
-    rep.ob("copy_subdir directories are not searched for pages", ok, "", py.nloc(loop[0]), nontrivial=False)
+           py.nloc(asg[0][0]))
+    # the merged list: user order first, then the listing, duplicates removed
+    it = loop.iter
+    if not isinstance(it, ast.Name):
+        raise AnalysisError(f"get_page_tree: the page loop iterates `{ast.unparse(it)}`, expected a local list")
+    merged = None
+    for _, v in astq.assignments(fn, it.id):
+        for n in ast.walk(v):
+            if isinstance(n, ast.BinOp) and isinstance(n.op, ast.Add):
+                merged = (v, n)
+    if merged is None:
+        rep.ob("ordered pages first, rest alphabetical, duplicates removed", False,
+               f"`{it.id}` is never built from the user's ordered_subpage list followed by the directory listing", py.nloc(loop))
+    else:
+        v, add = merged
+        left = astq.expand_locals(add.left, fn)
+        first_user = any("ordered_subpages" in ast.unparse(e) for e in left)
+        second_listing = ast.unparse(add.right) in listing_vars
+        dedup = any(isinstance(c, ast.Call) and call_name(c).split(".")[-1] in ("fromkeys", "unique", "unique_everseen")
+                    for c in ast.walk(v))
+        ok = first_user and second_listing and dedup
+        rep.ob("ordered pages first, rest alphabetical, duplicates removed", ok,
+               "user order + sorted listing, de-duplicated keeping first occurrences" if ok else
+               f"`{ast.unparse(v)[:100]}`: " + ("the user's list does not come first; " if not first_user else "") +
+               ("the directory listing does not follow; " if not second_listing else "") +
+               ("duplicates are not removed (a page named in ordered_subpage appears twice)" if not dedup else ""),
+               py.nloc(add))
+    # hidden and backup names are skipped before the name is used
+    first_use = None
+    for st in loop.body:
+        for b in ast.walk(st):
+            if isinstance(b, ast.BinOp) and isinstance(b.op, ast.Div) and isinstance(b.right, ast.Name) and b.right.id == name:
+                first_use = first_use or b
+    guards = astq.preceding_guards(loop.body, first_use)
+    ok = any(astq.tests_first_char(g.test, name, ".") for g in guards) and any(astq.tests_last_char(g.test, name, "~") for g in guards)
+    rep.ob("hidden and backup files are skipped before any use of the name", ok, "" if ok else
+           "names starting with '.' or ending in '~' are not skipped before the file is looked at", py.nloc(loop))
+    md = any(astq.compares_to_const(n, ".md", (ast.Eq,)) for n in ast.walk(loop) if isinstance(n, ast.If)) or \
+        any(isinstance(c, ast.Call) and isinstance(c.func, ast.Attribute) and c.func.attr == "endswith" and c.args
+            and isinstance(c.args[0], ast.Constant) and c.args[0].value == ".md" for c in ast.walk(loop))
+    isdir = bool(astq.calls(loop, "is_dir", "isdir"))
+    files = any(isinstance(c, ast.Call) and isinstance(c.func, ast.Attribute) and c.func.attr == "append"
+                and ast.unparse(c.func.value).endswith(".files") for c in ast.walk(loop))
+    ok = md and isdir and files
+    rep.ob("markdown -> page, directory -> sub-tree, other -> copied file", ok, "", py.nloc(loop))
+    ok = any(isinstance(n, ast.If) and any(isinstance(c, ast.Compare) and isinstance(c.ops[0], ast.In)
+                                           and ast.unparse(c.comparators[0]).endswith(".copy_subdir") for c in ast.walk(n.test))
+             and n.body and isinstance(n.body[-1], ast.Continue) for n in ast.walk(loop))
+    rep.ob("copy_subdir directories are not searched for pages", ok, "", py.nloc(loop), nontrivial=False)
+
+
+def _one_literal(py, what: str, lits: List[str], node) -> str:
+    lits = [l for l in lits if l and not l.startswith(".")]
+    if len(lits) != 1:
+        raise AnalysisError(f"{what}: expected exactly one directory literal, found {lits} ({py.nloc(node)})")
+    return lits[0]
 
 
 def r3_layout_names(ctx, rep):
+    """The layout is spelled at several sites; each site's directory literal is extracted from its path expression and the
+    sites are compared with each other (not with a fixed text)."""
     py = ctx.py
-    main = ast.unparse(py.func("__init__.main"))
-    ok = "'media': str(url_path / 'media')" in main and "'page': str(url_path / 'page')" in main and "'url': str(url_path)" in main
-    rep.ob("aliases |url| |media| |page| spell the layout", ok, "", "ford/__init__.py")
-    wo = ast.unparse(py.func("Documentation.writeout"))
-    ok = "copytree(self.data['media_dir'], out_dir / 'media')" in wo
-    rep.ob("media is copied to <out>/media", ok, "", "ford/output.py")
-    bp = ast.unparse(py.func("BasePage.__init__"))
-    ok = "self.page_dir = self.out_dir / 'page'" in bp
-    rep.ob("pages are written below <out>/page", ok, "", "ford/output.py")
-    ok = "return self.base_url / 'page' / self.path" in ast.unparse(py.func("PageNode.url"))
-    rep.ob("PageNode.url = base/page/path", ok, "", "ford/pagetree.py")
-    ok = "return self.location / self.filename.with_suffix('.html')" in ast.unparse(py.func("PageNode.path"))
-    rep.ob("PageNode.path = location/stem.html", ok, "", "ford/pagetree.py")
-    ok = "return pathlib.Path('page') / self.obj.path" in ast.unparse(py.func("PagetreePage.loc")) and \
-        "return self.page_dir / self.obj.path" in ast.unparse(py.func("PagetreePage.outfile"))
+    main = py.func("__init__.main")
+    # aliases: dict literal with keys url/media/page
+    alias = None
+    for d in ast.walk(main):
+        if isinstance(d, ast.Dict) and {"media", "page"} <= {k.value for k in d.keys if isinstance(k, ast.Constant)}:
+            alias = {k.value: v for k, v in zip(d.keys, d.values) if isinstance(k, ast.Constant)}
+    if alias is None:
+        raise AnalysisError("main: alias dictionary with 'media' and 'page' not found")
+    a_page = _one_literal(py, "alias |page|", astq.path_literals(alias["page"], main), alias["page"])
+    a_media = _one_literal(py, "alias |media|", astq.path_literals(alias["media"], main), alias["media"])
+    base_page = [e for e in astq.expand_locals(alias["page"], main)]
+    ok = "url" in alias and not astq.path_literals(alias["url"], main) and any("project_url" in ast.unparse(e) for e in base_page)
+    rep.ob("aliases |url| |media| |page| are rooted at project_url", ok, f"|page| -> <project_url>/{a_page}, |media| -> <project_url>/{a_media}",
+           py.nloc(alias["page"]))
+    # where the media directory is copied to
+    wo = py.func("Documentation.writeout")
+    cp = [c for c in astq.calls(wo, "copytree") if c.args and "media_dir" in ast.unparse(c.args[0])]
+    if not cp:
+        raise AnalysisError("Documentation.writeout: copytree(<media_dir>, ...) not found")
+    d_media = _one_literal(py, "media copy destination", astq.path_literals(cp[0].args[1], wo), cp[0])
+    rep.ob("media is copied to the directory the |media| alias names", d_media == a_media,
+           f"<out>/{d_media}" if d_media == a_media else f"media_dir is copied to <out>/{d_media} but |media| expands to "
+           f"<project_url>/{a_media}: every |media| link is dead", py.nloc(cp[0]))
+    # where pages are written
+    bp = py.func("BasePage.__init__")
+    pd = astq.assignments(bp, "self.page_dir")
+    if not pd:
+        raise AnalysisError("BasePage.__init__: self.page_dir not assigned")
+    d_page = _one_literal(py, "BasePage.page_dir", astq.path_literals(pd[0][1], bp), pd[0][0])
+    rep.ob("pages are written below the directory the |page| alias names", d_page == a_page,
+           f"<out>/{d_page}" if d_page == a_page else f"pages are written to <out>/{d_page} but |page| expands to "
+           f"<project_url>/{a_page}", py.nloc(pd[0][0]))
+    url = py.func("PageNode.url")
+    r = astq.returns(url)
+    u_page = _one_literal(py, "PageNode.url", [l for e in r for l in astq.path_literals(e, url)], url)
+    ok = u_page == d_page and any(astq.mentions(e, "self.path", url) for e in r) and any(astq.mentions(e, "self.base_url", url) for e in r)
+    rep.ob("PageNode.url = base/page/path", ok, "" if ok else
+           f"PageNode.url is built from {[ast.unparse(e) for e in r]}: pages are written below '{d_page}' relative to path", py.nloc(url))
+    pth = py.func("PageNode.path")
+    r = astq.returns(pth)
+    ok = any(astq.mentions(e, "self.location", pth) for e in r) and any(
+        isinstance(c, ast.Call) and call_name(c).endswith("with_suffix") and c.args and isinstance(c.args[0], ast.Constant)
+        and c.args[0].value == ".html" and "filename" in ast.unparse(c.func) for e in r for x in astq.expand_locals(e, pth) for c in ast.walk(x))
+    rep.ob("PageNode.path = location/stem.html", ok, "", py.nloc(pth))
+    loc, outf = py.func("PagetreePage.loc"), py.func("PagetreePage.outfile")
+    rl, ro = astq.returns(loc), astq.returns(outf)
+    l_page = _one_literal(py, "PagetreePage.loc", [l for e in rl for l in astq.path_literals(e, loc)], loc)
+    ok = l_page == d_page and any(astq.mentions(e, "self.obj.path", loc) for e in rl) and \
+        any(astq.mentions(e, "self.page_dir", outf) and astq.mentions(e, "self.obj.path", outf) for e in ro)
     rep.ob("PagetreePage.loc/outfile use the same relative path", ok,
-           "the search-index location and the written file agree with the URL" if ok else "loc/outfile/url disagree", "ford/output.py")
-    pn = ast.unparse(py.func("PageNode.__init__"))
-    ok = "self.location = Path(os.path.relpath(path.parent, self.topdir))" in pn and "self.topdir: Path = self.parent.topdir" in pn
-    rep.ob("location is the directory relative to the top page directory", ok, "", "ford/pagetree.py")
-    ok = "self.filename = Path(path.stem)" in pn
-    rep.ob("file stem is kept", ok, "", "ford/pagetree.py", nontrivial=False)
+           "the search-index location and the written file agree with the URL" if ok else
+           f"loc = {[ast.unparse(e) for e in rl]}, outfile = {[ast.unparse(e) for e in ro]}: they no longer name the same file "
+           f"below '{d_page}'", py.nloc(loc))
+    pn = py.func("PageNode.__init__")
+    locs = astq.assignments(pn, "self.location")
+    rel = [v for _, v in locs if any(call_name(c).endswith("relpath") or call_name(c).endswith("relative_to") for c in ast.walk(v) if isinstance(c, ast.Call))]
+    ok = bool(rel) and all("topdir" in ast.unparse(v) and "parent" in ast.unparse(v) for v in rel)
+    tops = astq.assignments(pn, "self.topdir")
+    ok = ok and any("self.parent.topdir" in ast.unparse(v) for _, v in tops)
+    rep.ob("location is the directory relative to the top page directory", ok, "", py.nloc(pn))
+    fnm = astq.assignments(pn, "self.filename")
+    ok = bool(fnm) and all("stem" in ast.unparse(v) for _, v in fnm)
+    rep.ob("file stem is kept", ok, "", py.nloc(pn), nontrivial=False)
+    rep.stats["layout_literals"] = {"page": a_page, "media": a_media}
 
 
 def r4_conversion_path(ctx, rep):
     py = ctx.py
     pn = py.func("PageNode.__init__")
-    t = ast.unparse(pn)
-    ok = "output_path = output_dir / 'page' / self.path.parent" in t and "path=output_path.resolve()" in t
-    rep.ob("page text is converted relative to its own output directory", ok,
-           "links in a nested page are made relative to <out>/page/<sub-directory>" if ok else
-           "the conversion path of static pages changed", py.nloc(pn))
-    gp = [c for c in py.walk_calls(py.func("__init__.main")) if call_name(c) == "get_page_tree"]
-    a = [ast.unparse(x) for x in gp[0].args] if gp else []
-    ok = a[:4] == ["proj_data.page_dir", "proj_data.copy_subdir", "proj_data.output_dir", "md"]
-    rep.ob("main hands page_dir, copy_subdir, output_dir and the converter to get_page_tree", ok, f"{a[:4]}", "ford/__init__.py")
-    rec = [c for c in py.walk_calls(py.func("pagetree.get_page_tree")) if call_name(c) == "get_page_tree"]
-    a = [ast.unparse(x) for x in rec[0].args] if rec else []
-    ok = a[:6] == ["filename", "proj_copy_subdir", "output_dir", "md", "progress", "node"]
-    rep.ob("recursion keeps output_dir and passes the parent node", ok, f"{a}", "ford/pagetree.py")
+    conv = [c for c in astq.calls(pn, "convert")]
+    if not conv:
+        raise AnalysisError("PageNode.__init__: md.convert call not found")
+    bp = py.func("BasePage.__init__")
+    d_page = _one_literal(py, "BasePage.page_dir", astq.path_literals(astq.assignments(bp, "self.page_dir")[0][1], bp), bp)
+    for c in conv:
+        kw = {k.arg: k.value for k in c.keywords}
+        if "path" not in kw:
+            rep.ob("page text is converted relative to its own output directory", False,
+                   "md.convert is called without path=: relative links of static pages are not rewritten", py.nloc(c))
+            continue
+        lits = [l for l in astq.path_literals(kw["path"], pn) if l]
+        ok = lits == [d_page] and astq.mentions(kw["path"], "output_dir", pn) and (
+            astq.mentions(kw["path"], "self.path.parent", pn) or astq.mentions(kw["path"], "self.location", pn))
+        rep.ob("page text is converted relative to its own output directory", ok,
+               f"links in a nested page are made relative to <out>/{d_page}/<sub-directory>" if ok else
+               f"path= is built from {[ast.unparse(e) for e in astq.expand_locals(kw['path'], pn)]}: not <output_dir>/{d_page}/<directory of the page>",
+               py.nloc(c))
+    gdef = py.func("pagetree.get_page_tree")
+    gp = [c for c in py.walk_calls(py.func("__init__.main")) if call_name(c).split(".")[-1] == "get_page_tree"]
+    if not gp:
+        raise AnalysisError("main: get_page_tree call not found")
+    b = astq.bind_args(gp[0], gdef)
+    want = {"topdir": "page_dir", "proj_copy_subdir": "copy_subdir", "output_dir": "output_dir"}
+    ok = all(k in b and ast.unparse(b[k]).endswith("." + v) for k, v in want.items()) and "md" in b
+    rep.ob("main hands page_dir, copy_subdir, output_dir and the converter to get_page_tree", ok,
+           f"{ {k: ast.unparse(v) for k, v in b.items()} }", "ford/__init__.py")
+    rec = [c for c in py.walk_calls(gdef) if call_name(c) == "get_page_tree"]
+    if not rec:
+        raise AnalysisError("get_page_tree: recursive call not found")
+    b = astq.bind_args(rec[0], gdef)
+    ok = all(k in b and ast.unparse(b[k]) == k for k in ("proj_copy_subdir", "output_dir", "md")) and \
+        "parent" in b and ast.unparse(b["parent"]) != "parent" and "topdir" in b and ast.unparse(b["topdir"]) != "topdir"
+    rep.ob("recursion keeps output_dir and passes the parent node", ok, f"{ {k: ast.unparse(v) for k, v in b.items()} }", "ford/pagetree.py")
+    idef = py.func("PageNode.__init__")
+    for c in _ctor_calls(gdef):
+        b = astq.bind_args(c, idef, skip_self=True)
+        ok = all(k in b for k in ("md", "path", "output_dir", "proj_copy_subdir", "parent")) and ast.unparse(b["output_dir"]) == "output_dir"
+        rep.ob(f"PageNode({ast.unparse(b.get('path', c))[:20]}...) receives output_dir", ok, "", py.nloc(c), nontrivial=False)
 
 
 def r5_copy_for_every_page(ctx, rep):
     py = ctx.py
     fn = py.func("PagetreePage.writeout")
-    loops = [n for n in fn.body if isinstance(n, ast.For)]
-    names = [ast.unparse(l.iter) for l in loops]
-    ok = "self.obj.copy_subdir" in names and "self.obj.files" in names
-    if not ok:
-        raise AnalysisError(f"PagetreePage.writeout: copy loops not found at top level ({names})")
-    first_loop = min(l.lineno for l in loops)
-    early = [r for r in ast.walk(fn) if isinstance(r, ast.Return) and r.lineno < first_loop]
-    rep.ob("copy_subdir and files are copied for every page", not early,
-           "no return precedes the copy loops" if not early else
-           "writeout returns before the copy loops for some pages: a copy_subdir named in a non-index page's "
-           "metadata is silently not copied", py.nloc(early[0]) if early else py.nloc(fn))
-    t = ast.unparse(fn)
-    ok = "super(PagetreePage, self).writeout()" in t or "super().writeout()" in t
-    rep.ob("the page itself is written", ok, "", py.nloc(fn))
-    ok = re.search(r"if self\.obj\.filename\.stem == 'index':\s+\(self\.page_dir / self\.obj\.location\)\.mkdir", t) is not None
+    loops = [n for n in ast.walk(fn) if isinstance(n, ast.For)]
+    cs = [l for l in loops if ast.unparse(l.iter).endswith(".copy_subdir")]
+    fl = [l for l in loops if ast.unparse(l.iter).endswith(".files")]
+    if not cs or not fl:
+        raise AnalysisError(f"PagetreePage.writeout: copy loops not found ({[ast.unparse(l.iter) for l in loops]})")
+    par = astq.parents_of(fn)
+    for l, what in ((cs[0], "copy_subdir"), (fl[0], "files")):
+        conds = astq.conditions_of(l, par, stop=fn)
+        # early returns that precede the loop at function level
+        early = [r for r in ast.walk(fn) if isinstance(r, ast.Return) and r.lineno < l.lineno]
+        ok = not conds and not early
+        rep.ob(f"{what} are copied for every page", ok,
+               "the copy loop runs unconditionally" if ok else
+               (f"writeout returns before the {what} loop for some pages" if early else
+                f"the {what} loop only runs under `{ast.unparse(conds[0][0])}`") +
+               ": assets named by a non-index page are silently not copied", py.nloc(early[0]) if early else py.nloc(l))
+    sup = [c for c in ast.walk(fn) if isinstance(c, ast.Call) and isinstance(c.func, ast.Attribute) and c.func.attr == "writeout"
+           and isinstance(c.func.value, ast.Call) and call_name(c.func.value) == "super"]
+    rep.ob("the page itself is written", bool(sup) and not astq.conditions_of(sup[0], par, stop=fn) if sup else False, "", py.nloc(fn))
+    mk = [c for c in astq.calls(fn, "mkdir", "makedirs") if "location" in ast.unparse(c)]
+    ok = bool(mk) and bool(sup) and mk[0].lineno < sup[0].lineno
     rep.ob("an index page creates its directory first", ok, "", py.nloc(fn))
-    pn = ast.unparse(py.func("PageNode.__init__"))
-    ok = "self.copy_subdir = self.meta.copy_subdir or proj_copy_subdir" in pn
+    pn = py.func("PageNode.__init__")
+    asg = astq.assignments(pn, "self.copy_subdir")
+    ok = bool(asg) and any(isinstance(v, (ast.BoolOp, ast.IfExp)) and "meta.copy_subdir" in ast.unparse(v)
+                           and "proj_copy_subdir" in ast.unparse(v) and
+                           ast.unparse(v).index("meta.copy_subdir") < ast.unparse(v).index("proj_copy_subdir") for _, v in asg)
     rep.ob("page-level copy_subdir overrides the project setting", ok, "", "ford/pagetree.py")
 
 
@@ -195,6 +406,6 @@ RULES = [
     RuleSpec("C17.R1", r1_containment, "containment of a bad page", floor=5),
     RuleSpec("C17.R2", r2_order, "ordering and exactly-once pages", floor=7),
     RuleSpec("C17.R3", r3_layout_names, "layout names agree", floor=7),
-    RuleSpec("C17.R4", r4_conversion_path, "conversion path per page", floor=3),
+    RuleSpec("C17.R4", r4_conversion_path, "conversion path per page", floor=4),
     RuleSpec("C17.R5", r5_copy_for_every_page, "assets copied for every page", floor=4),
 ]
